@@ -3,6 +3,8 @@ package props
 import (
 	"bytes"
 	"fmt"
+	"os"
+	"path/filepath"
 	"reflect"
 	"regexp"
 	"sort"
@@ -29,6 +31,9 @@ type c16Case struct {
 	// Text > 0: every third cue shows nothing (1: no line at all, 2: one line with one empty run, 3: one blank): its
 	// boundaries are rendered and read back like any other cue's
 	Text int `json:"text,omitempty"`
+	// FileExt: written and read through the file-level helpers (Write / OpenFile) under this extension instead of the
+	// format's writer and reader
+	FileExt string `json:"file_ext,omitempty"`
 }
 
 // ceilNs is the instant a reader assigns to u units of 1/perSecond s (rounded up to the next nanosecond).
@@ -116,6 +121,32 @@ func checkC16(c c16Case) string {
 		}
 	default:
 		return "unknown format " + c.Format
+	}
+	if c.FileExt != "" {
+		dir, err := os.MkdirTemp("", "c16file")
+		if err != nil {
+			return ""
+		}
+		defer os.RemoveAll(dir)
+		n := 0
+		write = func(s *astisub.Subtitles, b *bytes.Buffer) error {
+			n++
+			p := filepath.Join(dir, fmt.Sprintf("out%d.%s", n, c.FileExt))
+			if err := s.Write(p); err != nil {
+				return err
+			}
+			data, err := os.ReadFile(p)
+			b.Write(data)
+			return err
+		}
+		read = func(b []byte) (*astisub.Subtitles, error) {
+			n++
+			p := filepath.Join(dir, fmt.Sprintf("in%d.%s", n, c.FileExt))
+			if err := os.WriteFile(p, b, 0o644); err != nil {
+				return nil, err
+			}
+			return astisub.OpenFile(p)
+		}
 	}
 	if c.Meta > 0 {
 		if s.Metadata == nil {
@@ -411,6 +442,16 @@ func TestC16(t *testing.T) {
 					ev.CaseH(true, mix(strHash(format), uint64(text), 992), "format-"+format, "cues-that-show-nothing")
 					ev.AddEvals(len(tc.Instants) - 1)
 					verdict(t, "C16", "c16", tc, checkC16)
+				}
+				for _, ext := range map[string][]string{"srt": {"srt"}, "vtt": {"vtt"}, "ttml": {"ttml"}, "ssa": {"ssa", "ass", "ASS"}, "stl25": {"stl"}, "stl30": {"STL"}}[format] {
+					// the hour values and unit boundaries through the file-level helpers, under every extension of the format
+					fc := c16Case{Format: format, Instants: short[:len(short)/2*2], FileExt: ext}
+					if len(fc.Instants) > 800 {
+						fc.Instants = fc.Instants[:800]
+					}
+					ev.CaseH(true, mix(strHash(format+ext), 993), "format-"+format, "through-the-file-helpers")
+					ev.AddEvals(len(fc.Instants) - 1)
+					verdict(t, "C16", "c16", fc, checkC16)
 				}
 				for meta := 1; meta <= 3; meta++ {
 					mc := c16Case{Format: format, Instants: short, Meta: meta}
